@@ -34,12 +34,29 @@ package scramblesuit
 //@   requires s != nil
 //@   modifies file(s.filePath), fexists(s.filePath), crashed
 
+// Link crypto of the ScrambleSuit specification: AES-CTR with IV = 8-byte prefix | 64-bit counter starting
+// at 1, HMAC-SHA256 with its own key; all six values are consecutive slices of HKDF-Expand(seed).
+// the initial counter half of the IV: 00 00 00 00 00 00 00 01
+//@ pred ctr1(iv) := len(iv) == 16 && forall(i, 8, 15, at(iv, i) == 0) && at(iv, 15) == 1
+//@ pred csOK(cs) := cs != nil && cs.s != nil && cs.mac != nil && cs.mac.hsize == 32 && cs.mac.halg == 1
+//@ func newCryptoState(aesKey, ivPrefix, macKey) (cs, err)
+//@   serves C15 C10
+//@   requires len(ivPrefix) == 8
+//@   ensures (err == nil) == (cs != nil) && (err == nil) == (len(aesKey) == 16 || len(aesKey) == 24 || len(aesKey) == 32)
+//@   ensures [C15:link_crypto_state] err == nil ==> csOK(cs) && fresh(cs) && fresh(cs.s) && fresh(cs.mac) && cs.s.skey == seq(aesKey) && cs.s.spos == 0 && cs.mac.hkey == seq(macKey)
+//@       && sub(cs.s.siv, 0, 8) == seq(ivPrefix) && ctr1(cs.s.siv)
+
 //@ func (*ssConn).initCrypto(conn, seed) (err)
-//@   serves C15
-//@   nobody HKDF expansion into two AES-CTR/HMAC states; only the frame is stated
+//@   serves C15 C10
 //@   requires conn != nil
 //@   modifies conn.txCrypto, conn.rxCrypto
-//@   ensures err == nil ==> conn.txCrypto != nil && conn.rxCrypto != nil && fresh(conn.txCrypto) && fresh(conn.rxCrypto) && conn.txCrypto.mac != nil
+//@   ghost SEED := seq(seed)
+//@   assert_at newCryptoState#1 [C15:tx_key_material_slices] seq(arg0) == sub(seq(okm), 0, 32) && seq(arg1) == sub(seq(okm), 32, 40) && seq(arg2) == sub(seq(okm), 80, 112) && seq(okm) == HKDFX(SEED, "", 0, 144)
+//@   assert_at newCryptoState#2 [C15:rx_key_material_slices] seq(arg0) == sub(seq(okm), 40, 72) && seq(arg1) == sub(seq(okm), 72, 80) && seq(arg2) == sub(seq(okm), 112, 144) && seq(okm) == HKDFX(SEED, "", 0, 144)
+//@   ensures [C15:session_keys_from_hkdf_expand] err == nil ==> csOK(conn.txCrypto) && csOK(conn.rxCrypto) && fresh(conn.txCrypto) && fresh(conn.rxCrypto) && conn.txCrypto != conn.rxCrypto
+//@       && conn.txCrypto.s.skey == HKDFX(SEED, "", 0, 32) && sub(conn.txCrypto.s.siv, 0, 8) == HKDFX(SEED, "", 32, 40) && ctr1(conn.txCrypto.s.siv) && conn.txCrypto.mac.hkey == HKDFX(SEED, "", 80, 112)
+//@       && conn.rxCrypto.s.skey == HKDFX(SEED, "", 40, 72) && sub(conn.rxCrypto.s.siv, 0, 8) == HKDFX(SEED, "", 72, 80) && ctr1(conn.rxCrypto.s.siv) && conn.rxCrypto.mac.hkey == HKDFX(SEED, "", 112, 144)
+//@       && conn.txCrypto.s.spos == 0 && conn.rxCrypto.s.spos == 0
 
 //@ func newTicketClientHandshake(mac, ticket) (hs)
 //@   serves C15
